@@ -100,6 +100,80 @@ pub fn dedup_case_strategy() -> BoxedStrategy<DedupCase> {
     (prop_oneof![3 => flat, 5 => typed, 2 => random], any::<u16>(), any::<u8>()).prop_map(|((placement, items), fault_sel, fault_kind)| DedupCase { items, placement, fault_sel, fault_kind }).boxed()
 }
 
+/// deduplicated strings before, inside and after a sequence written through `serialize_iterator` from an iterator that
+/// does not know its length exactly (what a filter adaptor reports): one table for the whole stream
+#[derive(Debug, Clone, Serialize, Deserialize)]
+pub struct IterDedupCase {
+    pub before: Vec<usize>,
+    pub inner: Vec<usize>,
+    pub after: Vec<usize>,
+    /// 0: exact hint, 1: (0, None), 2: (0, Some(n)), 3: (n/2, Some(n + 3))
+    pub hint: u8,
+}
+
+pub fn check_c09_iter(c: &IterDedupCase, acc: &mut Acc, record: bool) -> Verdict {
+    let pick = |ix: &Vec<usize>| -> Vec<String> { ix.iter().map(|i| SMALL_ALPHABET[*i % SMALL_ALPHABET.len()].to_string()).collect() };
+    let (before, inner, after) = (pick(&c.before), pick(&c.inner), pick(&c.after));
+    let n = inner.len();
+    let (lo, hi) = match c.hint % 4 {
+        0 => (n, Some(n)),
+        1 => (0, None),
+        2 => (0, Some(n)),
+        _ => (n / 2, Some(n + 3)),
+    };
+    let exact = lo == n && hi == Some(n);
+    if record {
+        let repeats = before.iter().chain(&inner).chain(&after).enumerate().any(|(i, s)| before.iter().chain(&inner).chain(&after).take(i).any(|t| t == s));
+        acc.case(if exact { "around a sequence written from an iterator (exact hint)" } else { "around a sequence written from an iterator that hides its length" }, hash_json(c), repeats && !inner.is_empty());
+    }
+    // the model: one table, ids in first-occurrence order; the sequence in the known-length form for an exact hint,
+    // else -1, (1, element)*, 0
+    let mut table: Vec<&str> = Vec::new();
+    let mut want = Vec::new();
+    let mut ds = |s: &'_ str, out: &mut Vec<u8>, table: &mut Vec<&str>| match table.iter().position(|t| *t == s) {
+        Some(k) => vmodel::refcodec::var_i32(-(k as i32 + 1), out),
+        None => {
+            vmodel::refcodec::var_i32(s.len() as i32, out);
+            out.extend_from_slice(s.as_bytes());
+        }
+    };
+    let all: Vec<&String> = before.iter().chain(&inner).chain(&after).collect();
+    for (i, s) in all.iter().enumerate() {
+        if i == before.len() {
+            vmodel::refcodec::var_i32(if exact { n as i32 } else { -1 }, &mut want);
+        }
+        if i == before.len() + n && !exact {
+            want.push(0);
+        }
+        if !exact && i >= before.len() && i < before.len() + n {
+            want.push(1);
+        }
+        ds(s, &mut want, &mut table);
+        if !table.contains(&s.as_str()) {
+            table.push(s.as_str());
+        }
+    }
+    if all.len() == before.len() {
+        vmodel::refcodec::var_i32(if exact { n as i32 } else { -1 }, &mut want);
+    }
+    if all.len() == before.len() + n && !exact {
+        want.push(0);
+    }
+    match crate::run::guarded(|| vcat::dedup_around_iterator(&before, &inner, &after, lo, hi)) {
+        Ok(Ok((bytes, back))) => {
+            if bytes != want {
+                return Verdict::Fail(format!("deduplicated strings {before:?}, then {inner:?} through serialize_iterator (size hint ({lo}, {hi:?})), then {after:?} encode as {}; one table for the whole stream gives {}", hex(&bytes), hex(&want)));
+            }
+            match back {
+                Ok((b, m, a)) if b == before && m == inner && a == after => Verdict::Pass,
+                other => Verdict::Fail(format!("deduplicated strings {before:?} / {inner:?} (iterator) / {after:?} read back as {other:?} (bytes {})", hex(&bytes))),
+            }
+        }
+        Ok(Err(e)) => Verdict::Fail(format!("encoding failed: {e:?}")),
+        Err(p) => Verdict::Fail(format!("panic: {p}")),
+    }
+}
+
 fn big_table_strategy() -> BoxedStrategy<DedupCase> {
     let many = (prop_oneof![4 => 60usize..70, 1 => 8188usize..8198], proptest::collection::vec(0u8..5, 1..12), any::<bool>()).prop_map(|(n, tail, wrap)| {
         let mut strings: Vec<String> = (0..n.saturating_sub(2)).map(|i| format!("s{i}")).collect();
@@ -301,6 +375,11 @@ pub fn run_c09(cx: &Cx) -> PropResult {
         if drive(tag_seed(derive_seed(cx.seed, cx.prop, shard as u64, 6), 6), &strat, cx.n(24, 400), acc, &|c: &DedupCase| to_json(c), &mut |c, a, r| check_c09(c, a, r)) {
             return;
         }
+        let ix = || proptest::collection::vec(0usize..SMALL_ALPHABET.len(), 0..5);
+        let strat = (ix(), ix(), ix(), 0u8..4).prop_map(|(before, inner, after, hint)| IterDedupCase { before, inner, after, hint });
+        if drive(tag_seed(derive_seed(cx.seed, cx.prop, shard as u64, 7), 7), &strat, per_shard / 10, acc, &|c: &IterDedupCase| to_json(&json!({"Iter": c})), &mut |c, a, r| check_c09_iter(c, a, r)) {
+            return;
+        }
         // the string table next to the other per-stream table: graphs of tracked objects whose bodies carry one of four
         // deduplicated tags (C10's codec and byte model): string ids stay 1, 2, 3 ... whatever objects are numbered
         let strat = (1usize..25)
@@ -326,6 +405,10 @@ pub fn run_c09(cx: &Cx) -> PropResult {
 }
 
 pub fn replay_c09(case: &Value) -> Verdict {
+    if let Some(i) = case.get("Iter") {
+        let c: IterDedupCase = serde_json::from_value(i.clone()).expect("replay case");
+        return check_c09_iter(&c, &mut Acc::new(), false);
+    }
     if let Some(g) = case.get("Graph") {
         let c: crate::props::graphs::GraphCase = serde_json::from_value(g.clone()).expect("replay case");
         return crate::props::graphs::check_graph(&c, &mut Acc::new(), false);
